@@ -294,11 +294,11 @@ contract('FileW.write', trusted=True,
          raises={'*': ['G.now >= old(G.now)']})
 
 contract('FileR.read', trusted=True,
-         params={'self': 'opaque:FileR', 'size': 'int'}, returns='bytes',
+         params={'self': 'opaque:FileR', 'size': 'int'}, returns='bytes', defaults={'size': '0 - 1'},
          modifies=['G.fpos', 'G.now'],
          ensures=['len(result) <= ite(size > 0, size, len(G.fin))', 'result == G.fin[old(G.fpos):old(G.fpos) + len(result)]',
                   'G.fpos == old(G.fpos) + len(result) and G.fpos <= len(G.fin)', '(len(result) == 0) == (old(G.fpos) == len(G.fin))',
-                  'G.now >= old(G.now)'],
+                  'implies(size < 0, G.fpos == len(G.fin))', 'implies(size < 0 and old(G.fpos) == 0, result == G.fin)', 'G.now >= old(G.now)'],
          raises={'*': ['G.now >= old(G.now)', 'G.fpos >= old(G.fpos) and G.fpos <= len(G.fin)']},
          doc='a regular file or BytesIO opened for reading: any 1..size bytes, empty only at end of file')
 
